@@ -367,7 +367,13 @@ def check_wrap_numpy(fname, spec, kwargs=None, seq=False, out=False):
     self_ = next(o for o in ops if isinstance(o, Array))
     cself = next(o for o in clones if isinstance(o, Array))
     kw, ckw = dict(kwargs or {}), dict(kwargs or {})
-    if out:
+    target = None
+    if out == "third":
+        # a separate output Array carrying another unit: it receives the values AND the result's unit
+        target = mk_array("outarr", dims, "1d", unit=spint.sym_unit("uout"), dt=snp.dtype("float64"))
+        kw["out"] = (target,)
+        ckw["out"] = (clone(target),)
+    elif out:
         kw["out"] = (self_,)
         ckw["out"] = (cself,)
     args, cargs = (ops, clones) if not seq else ([ops], [clones])
@@ -383,7 +389,9 @@ def check_wrap_numpy(fname, spec, kwargs=None, seq=False, out=False):
     if want_exc is not None or got_exc is not None:
         prove("raises_as_spec", type(want_exc) is type(got_exc))
         return None, ops
-    if out:
+    if out == "third":
+        prove("out.same_object", got is target)
+    elif out:
         prove("out.same_object", got is self_)
     else:
         prove("fresh_object", all(got is not o for o in ops))
